@@ -881,8 +881,9 @@ def vec_store(M, interp, t, key, v, node):
     def write(pos, cond, e, keep_mask=False):
         e = cast_for(t, e)
         old = t.el(pos)
-        if keep_mask:
-            # numpy.ma.__setitem__ with a *masked* boolean index and an unmasked value writes the data only
+        if keep_mask or t.kind == 'nd':
+            # numpy.ma.__setitem__ with a *masked* boolean index and an unmasked value writes the data only; a plain-ndarray view of a
+            # masked array's buffer (np.asarray(ma), ma.data) writes data and leaves the owner's mask alone
             e = El(e.d, old.m)
         g = X.f_and(live, cond)
         if g == X.TRUE:
